@@ -102,33 +102,50 @@ def lock_l1(ctx, files):
     return recs, violations
 
 
-def register_l1(ctx, files):
-    """Linearizability decided by TLC: runs that never print OK are rejected."""
-    merged = ctx.path("val", "register", "traces.ndjson")
-    recs = []
-    with open(merged, "w") as out:
-        for f in files:
-            for line in open(f):
-                if line.strip():
-                    out.write(line)
-                    recs.append(line)
+def register_l1(ctx, files, shard_histories=4000):
+    """Linearizability decided by TLC: runs that never print OK are rejected.  Runs are reduced to their API history
+    (call / ret events of Read, Write, Transform + initial and final contents); equal histories are decided once; the
+    distinct histories go to TLC in shards (one initial state per history)."""
+    recs, keys, uniq, order = [], [], {}, []
+    for f in files:
+        for line in open(f):
+            if not line.strip():
+                continue
+            recs.append(line)
+            r = json.loads(line)
+            h = dict(init=r["init"], final=r["final"],
+                     events=[e for e in r["events"] if e["ev"] in ("call", "ret") and e.get("op") in ("read", "write", "transform")])
+            k = json.dumps(h, sort_keys=True)
+            if k not in uniq:
+                uniq[k] = len(order)
+                order.append(k)
+            keys.append(uniq[k])
     if not recs:
         raise NoVerdict("no histories recorded")
-    res = tlc(ctx, "lockedfile", "Trace_Register.tla", "Trace_Register.cfg", files=[merged], workers=NCPU, timeout=3000,
-              expect_violation=True, name="register")
-    ctx.tlc_states += res.distinct
-    ctx.tlc_transitions += max(res.generated - 1, 0)
-    if not res.ok:
-        raise NoVerdict("linearizability search did not complete:\n%s" % (res.violation or "")[:3000])
-    ok = set()
-    with open(res.out_path, errors="replace") as fh:
-        for line in fh:
-            m = re.match(r'<<"OK", (\d+)>>', line)
-            if m:
-                ok.add(int(m.group(1)))
+    shard_histories = int(os.environ.get("VERIF_SHARD_RECORDS", shard_histories))
+    accepted = set()
+    for n in range(0, len(order), shard_histories):
+        part = order[n:n + shard_histories]
+        merged = ctx.path("val", "register-%d" % n, "traces.ndjson")
+        with open(merged, "w") as out:
+            for k in part:
+                out.write(k + "\n")
+        res = tlc(ctx, "lockedfile", "Trace_Register.tla", "Trace_Register.cfg", files=[merged], workers=NCPU, timeout=3000,
+                  expect_violation=True, name="register-%d" % n)
+        ctx.tlc_states += res.distinct
+        ctx.tlc_transitions += max(res.generated - 1, 0)
+        if not res.ok:
+            raise NoVerdict("linearizability search did not complete:\n%s" % (res.violation or "")[:3000])
+        with open(res.out_path, errors="replace") as fh:
+            for line in fh:
+                m = re.match(r'<<"OK", (\d+)>>', line)
+                if m:
+                    accepted.add(n + int(m.group(1)) - 1)
+        os.remove(merged)
+    ctx.register_histories = len(order)
     violations = []
-    for i, line in enumerate(recs, 1):
-        if i in ok:
+    for i, line in enumerate(recs):
+        if keys[i] in accepted:
             continue
         rec = json.loads(line)
         d = describe(rec)
